@@ -45,9 +45,115 @@ def wfsa(ctx):
             ctx.eq("total_weight", v, ref, pivots=piv, sig=f"total:{P['shape']}", exc_sig="total_weight:not-a-weight")
 
 
+# the same body over the NON-COMMUTATIVE matrix semiring (acyclic machines: star applied to zero only):
+# the order  initial * arc * arc * ... * final  of every product becomes part of the proved identity
+case("C11", "wfsa_nc", domain="SM")(wfsa)
+
+
+@case("C11", "support", domain="Raw")
+def support(ctx):
+    """For ALL strings up to L at once (symbolic z3 string): the epsilon-free machine produced by the real
+    epsremove accepts s  <=>  the original machine has an accepting path spelling s (reference: Boolean
+    epsilon closure computed here).  Weights are positive constants, so non-zero weight <=> a path exists."""
+    import z3
+
+    from genlm.grammar.semiring import Float
+    from genlm.grammar.wfsa.base import WFSA
+
+    from .. import strenc as SE
+    from .c17 import _nfa_tables
+
+    P = ctx.P
+    sk = automaton(P["shape"])
+    L = P["L"]
+    drop = set(P.get("drop", []))
+    m = WFSA(Float)
+    arcs = [(i, a, j) for k, (i, a, j) in enumerate(sk.arcs) if k not in drop]
+    for i, a, j in arcs:
+        m.add_arc(i, a, j, 0.25)
+    for q in sk.init:
+        m.add_I(q, 1.0)
+    for q in sk.final:
+        m.add_F(q, 0.5)
+    alphabet = sorted({a for (_, a, _) in sk.arcs if a != EPS}) + ["z"]
+    label = f"support of epsremove({P['shape']} minus arcs {sorted(drop)}) and of m(.) = accepting paths (all strings up to {L})"
+    if not ctx.symbolic and "s" in ctx.D.values:
+        s = ctx.D.values["s"]
+        c2, I2, F2 = _nfa_tables(arcs, sk.init, sk.final)
+        cur = set(I2)
+        for ch in s:
+            cur = {j for (i, j), cs in c2.items() if i in cur and ch in cs}
+        want = bool(cur & F2)
+        w = m(s)
+        ctx.check(label, (w != 0) == want, detail=f"string {s!r}: weight {w}, accepting path exists {want}", sig=f"support:{P['shape']}:{s!r}")
+        return
+    ok, e = ctx.call("epsremove", lambda: m.epsremove, sig="epsremove:exception")
+    if not ok or not ctx.symbolic:
+        return
+    real_arcs = [(i, a, j) for i, a, j, w in e.arcs() if w != 0]
+    c1, I1, F1 = _nfa_tables(real_arcs, [q for q, w in e.start.items() if w != 0], [q for q, w in e.stop.items() if w != 0])
+    c2, I2, F2 = _nfa_tables(arcs, sk.init, sk.final)
+    s = z3.String("s")
+    a1 = SE.unroll_nfa(s, L, None, I1, F1, c1)
+    a2 = SE.unroll_nfa(s, L, None, I2, F2, c2)
+    f = z3.And(z3.Length(s) <= L, z3.InRe(s, z3.Star(SE.charset_re(alphabet))), a1 != a2)
+    if P.get("canary"):
+        f = z3.And(z3.Length(s) <= L, z3.InRe(s, z3.Star(SE.charset_re(alphabet))), a1 != z3.And(a2, z3.Length(s) != 1))
+    ctx.unsat(label, f, decode=lambda mdl: {"s": SE.z3_str(mdl, s)}, sig=f"support:{P['shape']}", vars=[s])
+
+
+@case("C11", "same_object", domain="SW")
+def same_object(ctx):
+    """both kinds of query on ONE automaton object, in both orders (cached graphs E, G, epsremove, backward)"""
+    P = ctx.P
+    sk = automaton(P["shape"])
+    ws = automaton_weights(ctx, sk, always=P.get("always", ()))
+    arcs, start, stop = oracle_machine(ctx, sk, ws)
+    num = ctx.num
+    strings = [tuple(x) for x in P["strings"]]
+    pt = []
+    tot = O.wfsa_total(arcs, start, stop, num, pt)
+    for order in ("total-first", "strings-first", "push-first"):
+        m = make_wfsa(ctx, sk, ws)
+        if order == "total-first":
+            ok, v = ctx.call("total_weight", m.total_weight, sig="total_weight:exception")
+            if ok:
+                ctx.eq(f"[{order}] total_weight", v, tot, pivots=pt, sig=f"same-object:{order}:total")
+        if order == "push-first":
+            ok, _ = ctx.call("backward", lambda: m.backward, sig="backward:exception")
+        for x in strings:
+            piv = []
+            ref = O.wfsa_weight(arcs, start, stop, x, num, piv)
+            ok, v = ctx.call(f"m({x})", m, x, sig="call:exception")
+            if ok:
+                ctx.eq(f"[{order}] m({x})", v, ref, pivots=piv + (pt if order != "strings-first" else []), sig=f"same-object:{order}:{P['shape']}:{''.join(x)}")
+        if order != "total-first":
+            ok, v = ctx.call("total_weight", m.total_weight, sig="total_weight:exception")
+            if ok:
+                ctx.eq(f"[{order}] total_weight after string queries", v, tot, pivots=pt, sig=f"same-object:{order}:total")
+
+
 def jobs(tier, seed):
     out = []
     quick = tier == "quick"
+    for sh, bits in ([("A-S1", []), ("A-EPS2", [0])] if quick else [("A-S1", []), ("A-EPS2", [0, 1]), ("A-S2", []), ("A-EPS", [0, 1, 2, 3])]):
+        sk = automaton(sh)
+        alphabet = sorted({a for (_, a, _) in sk.arcs if a != EPS})
+        out += split_job(dict(case="same_object", params=dict(shape=sh, strings=[list(x) for x in all_strings(alphabet, 2)],
+                                                              always=list(range(len(sk.arcs), sk.K)))), bits)
+    import random
+
+    rnd = random.Random(seed)
+    for sh in (["A-EPS", "A-EPS2"] if quick else ["A-EPS", "A-EPS2", "A-DAG", "A-S1", "A-S2", "A-DEAD"]):
+        sk = automaton(sh)
+        drops = [[]] + [sorted(rnd.sample(range(len(sk.arcs)), k)) for k in ([1, 2] if quick else [1, 1, 2, 2, 3])]
+        for d in drops:
+            out.append(dict(case="support", params=dict(shape=sh, L=7 if quick else 9, drop=d), timeout=900))
+    out.append(dict(case="support", params=dict(shape="A-S1", L=4, drop=[], canary=True)))
+    for sh, bits in ([("A-DAG", [0, 1])] if quick else [("A-DAG", [0, 1, 2]), ("A-DAG2", [0, 1]), ("A-D4", [0])]):
+        sk = automaton(sh)
+        alphabet = sorted({a for (_, a, _) in sk.arcs if a != EPS})
+        out += split_job(dict(case="wfsa_nc", params=dict(shape=sh, strings=[list(x) for x in all_strings(alphabet, 3)], always=list(range(len(sk.arcs), sk.K)))), bits)
     plan = [("A-EPS", [0, 1]), ("A-EPS2", [0]), ("A-S1", []), ("A-S2", [])] if quick else \
         [("A-EPS", [0, 1, 2, 3, 4]), ("A-EPS2", [0, 1]), ("A-S1", []), ("A-S2", []), ("A-DAG", [0, 1, 2]), ("A-DEAD", [0])]
     L = 3 if quick else 4
@@ -70,7 +176,9 @@ INFO = dict(
     level_text="Bounded symbolic verification: WFSA.__call__, epsremove and total_weight run on automaton skeletons (epsilon arcs and cycles, several "
                "initial/final states, parallel arcs, dead and unreachable states) whose arc, initial and final weights are z3 reals in [0,inf) (each "
                "may be zero); z3 proves, per control path and string, equality with the path-sum oracle (epsilon closure by Cramer) for ALL weights; "
-               "the epsilon-removed machine is re-evaluated by the oracle and must be epsilon-free.",
+               "the epsilon-removed machine is re-evaluated by the oracle and must be epsilon-free. Additional passes: (i) the same body over a "
+               "NON-COMMUTATIVE symbolic semiring (2x2 matrices) on acyclic machines, so the order initial*arcs*final is part of the identity; (ii) both "
+               "kinds of query on ONE object in both orders (cached graphs); (iii) SUPPORT for all strings up to L at once via a symbolic z3 string.",
     level_note="Assumes convergence pivots > 0. Strings up to the bound; skeleton catalogue. Trusted: CPython, z3, SW proxy, path-sum oracle.",
     design_ref="DESIGN.md section 3 C11",
     explanation="Real automaton evaluation on symbolic weights; z3 proves equality with the accepting-path sum for all weights.",
